@@ -5,5 +5,6 @@ From IMB Require Import Lib.Bytes Gen.GenEnums Mgr.JobView Gen.GenValidate Mgr.V
 Extraction Language OCaml.
 Cd "../ocaml".
 Extraction "validate_model.ml" is_job_invalid is_job_invalid_light job_ok violations
-  well_formed outside_known_discrepancies discrepancy_flags mk_job_view mk_seg.
+  well_formed outside_known_discrepancies discrepancy_flags mk_job_view mk_seg
+  set_cipher_suite_id_0 set_cipher_suite_id_1 submit_burst_check burst_ok mk_burst_entry mk_burst_view.
 Cd "../coq".
